@@ -9,12 +9,15 @@ package qrref
 //            preceded or followed by a light area 4 modules wide
 //   N4 = 10  dark proportion 50 +/- (5k)% .. 50 +/- (5(k+1))%: N4*k
 //
-// The N3 wording is ambiguous in two ways (does the quiet zone count as the
-// light area; does a pattern with light on both sides score once or twice).
-// PenaltyScore takes the literal in-symbol reading: each position where the
-// 7 modules 1011101 occur scores N3 once if the 4 modules before it or the 4
-// modules after it exist inside the symbol and are all light.  PenaltyN3Alt
-// exposes the other common reading for comparison.
+// The N3 wording is ambiguous in two ways (does the quiet zone, which is
+// light and 4 modules wide by definition, count as the light area; does a
+// pattern with light on both sides score once or twice).  The standard gives
+// no worked example that settles either, so N3 -- and therefore the total
+// and the mask choice -- is a don't-care between these readings.
+// PenaltyScore / PenaltyParts take the strictest in-symbol reading
+// (N3Reading{}): each position where the 7 modules 1011101 occur scores N3
+// once if the 4 modules before it or the 4 modules after it all lie inside
+// the symbol and are light.  PenaltyN3 evaluates any of the four readings.
 
 // PenaltyParts returns the four feature scores separately.
 func PenaltyParts(m [][]bool) (n1, n2, n3, n4 int) {
@@ -41,27 +44,6 @@ func PenaltyParts(m [][]bool) (n1, n2, n3, n4 int) {
 					n1++
 				}
 			}
-			// N3
-			for b := 0; b+7 <= size; b++ {
-				if !(get(b, a, tr) && !get(b+1, a, tr) && get(b+2, a, tr) && get(b+3, a, tr) &&
-					get(b+4, a, tr) && !get(b+5, a, tr) && get(b+6, a, tr)) {
-					continue
-				}
-				light := func(from int) bool {
-					if from < 0 || from+4 > size {
-						return false
-					}
-					for k := from; k < from+4; k++ {
-						if get(k, a, tr) {
-							return false
-						}
-					}
-					return true
-				}
-				if light(b-4) || light(b+7) {
-					n3 += 40
-				}
-			}
 		}
 	}
 	dark := 0
@@ -75,6 +57,7 @@ func PenaltyParts(m [][]bool) (n1, n2, n3, n4 int) {
 			}
 		}
 	}
+	n3 = PenaltyN3(m, N3Reading{})
 	total := size * size
 	dev := 20*dark - 10*total // |pct-50|/5 = |20*dark-10*total| / total
 	if dev < 0 {
@@ -90,14 +73,24 @@ func PenaltyScore(m [][]bool) int {
 	return a + b + c + d
 }
 
-// PenaltyN3Alt is the alternative reading of the N3 rule: modules outside
-// the symbol count as light, and a 1011101 with a 4-module light area on
-// both sides scores twice.
-func PenaltyN3Alt(m [][]bool) int {
+// N3Reading selects an interpretation of the N3 rule.
+type N3Reading struct {
+	// QuietZoneLight: modules outside the symbol count as light (so a
+	// finder-like run touching or near the edge is "followed by a light
+	// area"); otherwise all 4 light modules must lie inside the symbol.
+	QuietZoneLight bool
+	// CountBothSides: a run with a 4-module light area on both sides scores
+	// 2*N3; otherwise N3 once per run.
+	CountBothSides bool
+}
+
+// PenaltyN3 returns the N3 feature score under the given reading.
+func PenaltyN3(m [][]bool, r N3Reading) int {
 	size := len(m)
 	n3 := 0
 	for _, tr := range []bool{false, true} {
-		get := func(b, a int) bool {
+		// dark(b,a): module b of line a (row a, or column a when transposed); false outside the symbol
+		dark := func(b, a int) bool {
 			if b < 0 || b >= size {
 				return false
 			}
@@ -106,16 +99,28 @@ func PenaltyN3Alt(m [][]bool) int {
 			}
 			return m[a][b]
 		}
+		light4 := func(from, a int) bool {
+			for k := from; k < from+4; k++ {
+				if (k < 0 || k >= size) && !r.QuietZoneLight {
+					return false
+				}
+				if dark(k, a) {
+					return false
+				}
+			}
+			return true
+		}
 		for a := 0; a < size; a++ {
 			for b := 0; b+7 <= size; b++ {
-				if !(get(b, a) && !get(b+1, a) && get(b+2, a) && get(b+3, a) &&
-					get(b+4, a) && !get(b+5, a) && get(b+6, a)) {
+				if !(dark(b, a) && !dark(b+1, a) && dark(b+2, a) && dark(b+3, a) &&
+					dark(b+4, a) && !dark(b+5, a) && dark(b+6, a)) {
 					continue
 				}
-				if !get(b-1, a) && !get(b-2, a) && !get(b-3, a) && !get(b-4, a) {
-					n3 += 40
-				}
-				if !get(b+7, a) && !get(b+8, a) && !get(b+9, a) && !get(b+10, a) {
+				before, after := light4(b-4, a), light4(b+7, a)
+				switch {
+				case before && after && r.CountBothSides:
+					n3 += 80
+				case before || after:
 					n3 += 40
 				}
 			}
